@@ -54,6 +54,9 @@ pub enum Site {
     BlockOnWake,
     BlockOnWakeStored,
     BlockOnSwap,
+    ArcClone,
+    ArcDrop,
+    ArcRead,
 }
 
 /// One event of a poll batch, as seen by the simulator.
@@ -229,5 +232,84 @@ impl crate::RegistrationToken {
     /// The raw key of this registration (sub-id 0).
     pub fn verif_key(&self) -> usize {
         self.verif_inner().into()
+    }
+}
+
+/// A stand-in for `std::sync::Arc` with trace points, used (only with
+/// `--cfg calloop_verif_shuttle`) for the reference counts shared between threads by the ping,
+/// the channel and the executor: every clone, every drop and every read of the count is a point
+/// where the schedule simulator can switch threads. The inner `std::sync::Arc` is released
+/// *after* the `ArcDrop` point, like the fields of a value are dropped after its `Drop::drop`.
+#[cfg(calloop_verif_shuttle)]
+pub struct Arc<T: ?Sized>(std::sync::Arc<T>);
+
+#[cfg(calloop_verif_shuttle)]
+#[allow(missing_docs)]
+impl<T> Arc<T> {
+    pub fn new(value: T) -> Arc<T> {
+        Arc(std::sync::Arc::new(value))
+    }
+}
+
+#[cfg(calloop_verif_shuttle)]
+#[allow(missing_docs, clippy::should_implement_trait)]
+impl<T: ?Sized> Arc<T> {
+    pub fn clone(this: &Arc<T>) -> Arc<T> {
+        point(Site::ArcClone);
+        Arc(std::sync::Arc::clone(&this.0))
+    }
+    pub fn strong_count(this: &Arc<T>) -> usize {
+        point(Site::ArcRead);
+        std::sync::Arc::strong_count(&this.0)
+    }
+    pub fn weak_count(this: &Arc<T>) -> usize {
+        point(Site::ArcRead);
+        std::sync::Arc::weak_count(&this.0)
+    }
+    pub fn ptr_eq(this: &Arc<T>, other: &Arc<T>) -> bool {
+        std::sync::Arc::ptr_eq(&this.0, &other.0)
+    }
+    pub fn get_mut(this: &mut Arc<T>) -> Option<&mut T> {
+        point(Site::ArcRead);
+        std::sync::Arc::get_mut(&mut this.0)
+    }
+    pub fn as_ptr(this: &Arc<T>) -> *const T {
+        std::sync::Arc::as_ptr(&this.0)
+    }
+}
+
+#[cfg(calloop_verif_shuttle)]
+impl<T: ?Sized> Clone for Arc<T> {
+    fn clone(&self) -> Arc<T> {
+        Arc::clone(self)
+    }
+}
+
+#[cfg(calloop_verif_shuttle)]
+impl<T: ?Sized> Drop for Arc<T> {
+    fn drop(&mut self) {
+        point(Site::ArcDrop);
+    }
+}
+
+#[cfg(calloop_verif_shuttle)]
+impl<T: ?Sized> std::ops::Deref for Arc<T> {
+    type Target = T;
+    fn deref(&self) -> &T {
+        &self.0
+    }
+}
+
+#[cfg(calloop_verif_shuttle)]
+impl<T: ?Sized + std::fmt::Debug> std::fmt::Debug for Arc<T> {
+    fn fmt(&self, f: &mut std::fmt::Formatter<'_>) -> std::fmt::Result {
+        std::fmt::Debug::fmt(&self.0, f)
+    }
+}
+
+#[cfg(calloop_verif_shuttle)]
+impl<T: ?Sized> AsRef<T> for Arc<T> {
+    fn as_ref(&self) -> &T {
+        &self.0
     }
 }
